@@ -131,22 +131,29 @@ impl Oracle for TwinOracle {
 
 /// Every RTT sample the sender feeds into its estimate is `now - send time of the newest frame
 /// acknowledged for the first time since the previous sample`: frames an acknowledgement merely
-/// repeats contribute nothing. Send times are taken from the wire (the sender's clock at the
-/// step() before the flush that emitted the frame), first acknowledgements from the trace.
+/// repeats contribute nothing. Send times are taken from the wire. An implementation may stamp a
+/// frame with the time of the flush that emits it (uflow since the stale-stamp repair; the clock
+/// value the sender holds when the emitting call returns, simulated time does not advance within a
+/// call) or with the time of the step() before that flush (the clock value it held before the
+/// call): the property does not say which, so either is accepted, but nothing else. First
+/// acknowledgements are taken from the trace.
 pub struct RttSampleOracle {
     property: &'static str,
     sender: usize,
     /// the sender's stored clock (ms) as of its latest probe
     clock_ms: u64,
-    send_ms: BTreeMap<u32, u64>,
-    pending: Option<u64>,
+    /// frame id -> (clock before the emitting call, clock after it)
+    send_ms: BTreeMap<u32, (u64, u64)>,
+    /// frames that left during the current call; their second stamp is the probe that follows it
+    awaiting: Vec<u32>,
+    pending: Option<(u64, u64)>,
     unknown: bool,
     checked: u64,
 }
 
 impl RttSampleOracle {
     pub fn new(property: &'static str, sender: usize) -> Self {
-        Self { property, sender, clock_ms: 0, send_ms: BTreeMap::new(), pending: None, unknown: false, checked: 0 }
+        Self { property, sender, clock_ms: 0, send_ms: BTreeMap::new(), awaiting: Vec::new(), pending: None, unknown: false, checked: 0 }
     }
 }
 
@@ -154,19 +161,22 @@ impl Oracle for RttSampleOracle {
     fn on(&mut self, rec: &Rec, _cx: &Cx) -> Option<Violation> {
         match rec {
             Rec::Probe { ep, probe: Probe::Hc(h), .. } if *ep == self.sender => {
+                for id in self.awaiting.drain(..) {
+                    self.send_ms.insert(id, (self.clock_ms, h.now_ms));
+                }
                 self.clock_ms = h.now_ms;
-            }
-            Rec::Wire(w) if w.src == self.sender && w.bytes.first() == Some(&FRAME_DATA) && w.bytes.len() >= 5 => {
-                let id = u32::from_be_bytes([w.bytes[1], w.bytes[2], w.bytes[3], w.bytes[4]]);
-                self.send_ms.insert(id, self.clock_ms);
-                if self.send_ms.len() > 20_000 {
+                while self.send_ms.len() > 20_000 {
                     let k = *self.send_ms.keys().next().unwrap();
                     self.send_ms.remove(&k);
                 }
             }
+            Rec::Wire(w) if w.src == self.sender && w.bytes.first() == Some(&FRAME_DATA) && w.bytes.len() >= 5 => {
+                let id = u32::from_be_bytes([w.bytes[1], w.bytes[2], w.bytes[3], w.bytes[4]]);
+                self.awaiting.push(id);
+            }
             Rec::Trace { call, ep, ev, .. } if *ep == self.sender => match ev {
                 uv::trace::Event::FrameAcked { frame_id } => match self.send_ms.get(frame_id) {
-                    Some(t) => self.pending = Some(self.pending.map_or(*t, |p| p.max(*t))),
+                    Some(t) => self.pending = Some(self.pending.map_or(*t, |p| if t.1 >= p.1 { *t } else { p })),
                     None => self.unknown = true,
                 },
                 uv::trace::Event::Feedback { now_ms, rtt_sample_ms, .. } => {
@@ -180,9 +190,10 @@ impl Oracle for RttSampleOracle {
                     }
                     if let (Some(t), false) = (pending, unknown) {
                         self.checked += 1;
-                        let expected = now_ms.saturating_sub(t);
-                        if *rtt_sample_ms != expected {
-                            let d = format!("sender {}: RTT sample {} ms at {} ms, but the newest frame acknowledged for the first time since the previous sample was sent at {} ms (sample should be {} ms): an already acknowledged frame influenced the sample", ep, rtt_sample_ms, now_ms, t, expected);
+                        let expected = now_ms.saturating_sub(t.1);
+                        let expected_stale = now_ms.saturating_sub(t.0);
+                        if *rtt_sample_ms != expected && *rtt_sample_ms != expected_stale {
+                            let d = format!("sender {}: RTT sample {} ms at {} ms, but the newest frame acknowledged for the first time since the previous sample was sent at {} ms (sample should be {} ms; {} ms if frames carry the time of the step before their flush): an already acknowledged frame influenced the sample", ep, rtt_sample_ms, now_ms, t.1, expected, expected_stale);
                             return Some(Violation { property: self.property.into(), clause: "rtt_sample_not_from_fresh_ack".into(), detail: d, at_call: *call });
                         }
                     }
